@@ -4,6 +4,7 @@ import (
 	"bytes"
 	"context"
 	"fmt"
+	"math/rand"
 	"sort"
 	"strings"
 	"sync"
@@ -14,6 +15,7 @@ import (
 	"github.com/pingcap/kvproto/pkg/kvrpcpb"
 	tikverr "github.com/tikv/client-go/v2/error"
 	"github.com/tikv/client-go/v2/internal/mockstore/mocktikv"
+	"github.com/tikv/client-go/v2/internal/unionstore"
 	"github.com/tikv/client-go/v2/kv"
 	"github.com/tikv/client-go/v2/tikv"
 	"github.com/tikv/client-go/v2/tikvrpc"
@@ -77,6 +79,8 @@ type World struct {
 	sc      *Scenario
 	Hist    []*TxnHist
 	allKeys [][]byte
+	Reads   []SnapRead
+	readsMu sync.Mutex
 }
 
 // mockFront sits in front of the repository's mock server. The mock panics
@@ -239,6 +243,13 @@ func (w *World) runTxn(p *TxnProg, h *TxnHist) {
 	h.Locked = map[string]uint64{}
 	h.InsertChecked = map[string]bool{}
 	h.InsertUncertain = map[string]bool{}
+	type stageRec struct {
+		h   int
+		buf map[string]*string
+	}
+	var stages []stageRec
+	var cp *unionstore.MemDBCheckpoint
+	var cpBuf map[string]*string
 	for _, op := range p.Ops {
 		r := OpRes{Op: op, Own: copyBuf(h.Buf)}
 		r.Inv = s.Stamp()
@@ -341,6 +352,28 @@ func (w *World) runTxn(p *TxnProg, h *TxnHist) {
 			}
 		case "sleep":
 			time.Sleep(time.Duration(op.SleepMs) * time.Millisecond)
+		case "stage":
+			stages = append(stages, stageRec{h: txn.GetMemBuffer().Staging(), buf: copyBuf(h.Buf)})
+		case "release":
+			if n := len(stages); n > 0 {
+				txn.GetMemBuffer().Release(stages[n-1].h)
+				stages = stages[:n-1]
+			}
+		case "cleanup":
+			if n := len(stages); n > 0 {
+				txn.GetMemBuffer().Cleanup(stages[n-1].h)
+				h.Buf = stages[n-1].buf
+				stages = stages[:n-1]
+			}
+		case "checkpoint":
+			cp = txn.GetMemBuffer().Checkpoint()
+			cpBuf = copyBuf(h.Buf)
+		case "revert":
+			if cp != nil {
+				txn.GetMemBuffer().RevertToCheckpoint(cp)
+				h.Buf = cpBuf
+				cp = nil
+			}
 		case "lock":
 			forTS, err := store.GetOracle().GetTimestamp(ctx, &oracleOpt)
 			if err != nil {
@@ -587,4 +620,169 @@ func firstN(s string, n int) string {
 		return s[:n]
 	}
 	return s
+}
+
+// SnapRead is one recorded snapshot read of a C05 reader.
+type SnapRead struct {
+	Phase   string
+	TS      uint64
+	Path    string // get bget iter riter
+	Keys    []string
+	Lo, Hi  string
+	Batch   int
+	KeyOnly bool
+	Warm    bool
+	Err     string
+	Vals    map[string]*string
+	Pairs   [][2]string
+	Took    time.Duration
+	Faulty  bool // a network fault was injected while this read ran (liveness is judged on fault-free reads only)
+}
+
+// candidateTS lists interesting snapshot timestamps: every start / commit ts seen so far, +-1.
+func (w *World) candidateTS(upTo uint64) []uint64 {
+	set := map[uint64]bool{}
+	add := func(ts uint64) {
+		for _, d := range []int64{-1, 0, 1} {
+			x := uint64(int64(ts) + d)
+			if x > 0 && x <= upTo {
+				set[x] = true
+			}
+		}
+	}
+	for _, t := range w.TSO.Snapshot() {
+		add(t.TS)
+	}
+	out := make([]uint64, 0, len(set))
+	for ts := range set {
+		out = append(out, ts)
+	}
+	sort.Slice(out, func(i, j int) bool { return out[i] < out[j] })
+	return out
+}
+
+// runReads performs n snapshot reads through the four access paths on client cl.
+func (w *World) runReads(r *rand.Rand, cl int, phase string, n int, plan *ReadPlan) {
+	st := w.Stores[cl]
+	ctx := context.Background()
+	keys := keyPool
+	for i := 0; i < n && w.Sim.Aborted == ""; i++ {
+		now, err := st.GetOracle().GetTimestamp(ctx, &oracleOpt)
+		if err != nil {
+			return
+		}
+		cands := w.candidateTS(now)
+		ts := now
+		if len(cands) > 0 && r.Intn(5) != 0 {
+			ts = cands[r.Intn(len(cands))]
+		}
+		snap := st.GetSnapshot(ts)
+		batch := plan.Batch
+		if batch > 0 {
+			snap.SetScanBatchSize(batch)
+		}
+		snap.SetKeyOnly(plan.KeyOnly)
+		// a few reads on the same snapshot object: cold then warm cache, different paths
+		reps := 2 + r.Intn(4)
+		for j := 0; j < reps; j++ {
+			rd := SnapRead{Phase: phase, TS: ts, Batch: batch, KeyOnly: plan.KeyOnly, Warm: j > 0}
+			fired := len(w.Net.Fired)
+			t0 := time.Now()
+			switch r.Intn(4) {
+			case 0:
+				rd.Path = "get"
+				k := pick(r, keys)
+				rd.Keys = []string{k}
+				v, err := snap.Get(ctx, []byte(k))
+				rd.Vals = map[string]*string{}
+				if err == nil {
+					rd.Vals[k] = sp(string(v.Value))
+				} else if tikverr.IsErrNotFound(err) {
+					rd.Vals[k] = nil
+				} else {
+					rd.Err = classify(err)
+				}
+			case 1:
+				rd.Path = "bget"
+				rd.Keys = subset(r, keys, 1, 5)
+				if r.Intn(3) == 0 {
+					rd.Keys = append(rd.Keys, rd.Keys[0]) // duplicate inside the batch
+				}
+				var ks [][]byte
+				for _, k := range rd.Keys {
+					ks = append(ks, []byte(k))
+				}
+				m, err := snap.BatchGet(ctx, ks)
+				if err != nil {
+					rd.Err = classify(err)
+				} else {
+					rd.Vals = map[string]*string{}
+					for _, k := range rd.Keys {
+						if v, ok := m[k]; ok {
+							rd.Vals[k] = sp(string(v.Value))
+						} else {
+							rd.Vals[k] = nil
+						}
+					}
+				}
+			default:
+				rev := r.Intn(2) == 0
+				bounds := []string{"", "a", "b", "b\x00", "c", "d", "e", "f", "g"}
+				lo, hi := pick(r, bounds), pick(r, bounds)
+				if lo != "" && hi != "" && hi < lo {
+					lo, hi = hi, lo
+				}
+				if rev && hi == "" && !plan.Unbounded {
+					hi = "g"
+				}
+				if rev && lo == hi {
+					lo = ""
+				}
+				rd.Lo, rd.Hi = lo, hi
+				var it unionstore.Iterator
+				var err error
+				var blo, bhi []byte
+				if lo != "" {
+					blo = []byte(lo)
+				}
+				if hi != "" {
+					bhi = []byte(hi)
+				}
+				if rev {
+					rd.Path = "riter"
+					it, err = snap.IterReverse(bhi, blo)
+				} else {
+					rd.Path = "iter"
+					it, err = snap.Iter(blo, bhi)
+				}
+				if err != nil {
+					rd.Err = classify(err)
+					break
+				}
+				rd.Pairs = [][2]string{}
+				for it.Valid() {
+					rd.Pairs = append(rd.Pairs, [2]string{string(it.Key()), string(it.Value())})
+					if err := it.Next(); err != nil {
+						rd.Err = classify(err)
+						break
+					}
+					if len(rd.Pairs) > 64 {
+						rd.Err = "other:runaway iterator"
+						break
+					}
+				}
+				it.Close()
+			}
+			rd.Took = time.Since(t0)
+			rd.Faulty = len(w.Net.Fired) != fired
+			w.readsMu.Lock()
+			w.Reads = append(w.Reads, rd)
+			w.readsMu.Unlock()
+			if r.Intn(6) == 0 && len(cands) > 0 {
+				// move the snapshot to another timestamp: nothing cached for the old one may leak
+				ts = cands[r.Intn(len(cands))]
+				snap.SetSnapshotTS(ts)
+			}
+		}
+	}
 }
